@@ -76,7 +76,7 @@ def cases(rng, tier):
                 sz = rng.choice([0, 1, 500, 1023, 1024, 1025])
             else:
                 sz = rng.choice([0, 1, 2, max(0, limit - 1), limit, limit + 1, rng.below(12)])
-            ops.append([7 if k < 5 else 0, rc.chunked(rng, rc.rec_bytes(rng, "r%d" % j, sz))])
+            ops.append([(7 if k < 3 else 12) if k < 5 else 0, rc.chunked(rng, rc.rec_bytes(rng, "r%d" % j, sz))])
         out.append([[0, limit], rng.choice(ROLLERS + [[1, 7, 3, 0], [1, 1, 1, 1]]), prev, rng.choice([1, 1, 0]), ops])
     # one encoder write of >= 1 KiB preceded by a small piece of the same record
     for _ in range(40 if tier == "quick" else 400):
@@ -118,7 +118,7 @@ def cases(rng, tier):
 
 
 def nontrivial(c):
-    return c[0][0] == 0 and any(o[0] in (0, 7, 10) for o in c[4])
+    return c[0][0] == 0 and any(o[0] in (0, 7, 10, 12) for o in c[4])
 
 
 def extra_checks(ctx, cases_, impl_lines, model_lines_):
